@@ -120,6 +120,26 @@ CHECKS.update({
         note="Anchored on functions the test-suite imports by name.",
     ),
 })
+
+# additions of the second half of the build session (DESIGN.md §9.5): (technique suffix, text suffix)
+EXTRA = {
+    "C01": ("; index-space typing of numpy kernels (rows / sorted order / unique values); per-group-state rule for ids built by arithmetic on another id",
+            " Also decided: (c) in the kernels and their helpers the sort permutation is never used where its inverse is needed and the inverse map of `unique` never where the first-occurrence index is needed (IX); (d) an id built as fg_id*100+k takes k from state looked up by the row's own id, not from a scalar updated across rows or a cumulative operation (W5)."),
+    "C02": ("; index-space typing of numpy kernels; per-group-state rule for derived ids", " IX and W5 as for C01: derived ids cannot depend on rows of other households."),
+    "C03": ("; truth table of the input type gate", " T0: the 'already has the expected type' gate accepts a dtype class only for its own declared type (all 20 combinations), so rules receive values of the declared kind."),
+    "C05": ("; direct-call and annotation-site sibling rules", " A2: no active rule calls another active, computable node's function directly (a supplied column would be ignored); A3: every branch typing an aggregate goes through the result-type rule; M-agg: aggregate factories do not skip a spec whose name is supplied as data."),
+    "C07": ("; binary-search selector idiom with index-domain check", " The dated-entry selectors may also be written with bisect_right(sorted, date) - 1; then the index use must be dominated by a test excluding -1."),
+    "C08": ("; interval domain with guard refinement for computed table keys", " K3d: a table look-up keyed by a computed count is bounded by the table's largest integer key through a clamp or a dominating guard."),
+    "C09": ("; feasibility of the if-translation's completing paths for hypothetical block sizes; alias rule for augmented assignments", " RJ: the if-to-where translation cannot complete for a body / else block of two statements (it must fail loudly); S5: no augmented assignment to (an alias of) an argument, which numpy would execute in place on the caller's column."),
+    "C10": ("; selector check of the rounding loader; expected-zero scan for in-rule rounding", " RSEL: the rounding loader takes the latest spec on or before the date and none if all are later; NR: no policy rule rounds its own amount (it would stay rounded under rounding=False)."),
+    "C11": ("; partial evaluation of the factories per kind; index-space typing of the kernels", " S-dispatch is decided by partially evaluating each factory for every kind (if / match / table spellings); RT also requires every annotation site to use the result-type rule; IX types the kernels' index arithmetic."),
+    "C13": ("; guard-purity of the creation site; phase wiring of the derivation steps", " Q5: whether a unit variant is created depends on names only, not on other properties of the function object; PH: unit variants reach the group-aggregation step as functions, the caller's data columns alone as data."),
+    "C15": ("; index-space typing of the aggregation kernels; per-group-state rule for derived ids", " L-id / IX: group ids and aggregates cannot mix rows of different groups through a running counter or a mis-directed permutation."),
+    "C16": ("; interval/sign proof of non-negative default targets with blame; naming-direction rule for bound parameters; sibling agreement on capped multipliers", " N: every default target is provably >= 0 at every interval since 2015 in an interval/sign domain with guard refinement (inputs >= 0 except six listed income/wealth columns; 13 reviewed differences, each with a reason and - for transition-zone formulas - a checked context); a report names the unguarded, unclamped difference responsible. D: a parameter named as an upper (lower) bound is an operand of min (max). S-cap: copies of one formula scale a parameter by the identical capped expression."),
+    "C18": ("; finite evaluation of the scaled-rates path; call-site consistency", " E also covers the rates-multiplier path (the intercept is rebuilt from exactly the full pieces below the bin, for 3-5 pieces and every bin); CS: thresholds, rates and intercepts of one call come from the same parameter."),
+    "C19": ("; order-domain evaluation of the regime predicates; sibling agreement of the regular and transition-zone branches (parameters, inputs, capped multipliers); both-regions rule", " R-cover: for every ordering of wage and thresholds at least one regime holds (no wage between the regimes); S-par: every rate parameter and input column the regular branch reads is also read by the transition-zone branch at every date; S-cap; OW: a parameter with differing east/west values is read on both sides."),
+    "C20": ("; truth table of the input type gate; NaN-blind statistics rule", " F6: the type gate accepts a dtype class only for its own type; F5 also rejects validators deciding with statistics that drop missing values."),
+}
 NOT_APPLICABLE = {
     "C04": "Compares values of two runs under different target sets / debug options; the only structural handle (non-interference of `targets` with node definitions) lives in dict comprehensions keyed by computed strings and in the third-party `dags` package - no necessary condition that is both statically checkable and robust to behaviour-preserving refactoring was found (DESIGN.md §6).",
     "C12": "Whether the row scans in groupings.py compute the partition the unit definitions prescribe, for every pointer graph and row order, is a property of a data-dependent algorithm over runtime values; it needs execution or model checking, not static analysis (DESIGN.md §6). Structural by-products are decided under C15, C17 and C20.",
@@ -135,7 +155,10 @@ def main():
     for pid in props:
         if pid not in CHECKS:
             continue
-        c = CHECKS[pid]
+        c = dict(CHECKS[pid])
+        if pid in EXTRA:
+            c["technique"] = c["technique"] + EXTRA[pid][0]
+            c["text"] = c["text"] + EXTRA[pid][1]
         checks.append({
             "property_id": pid,
             "quick_cmd": f"./vcheck {pid} --tier quick",
